@@ -60,8 +60,46 @@ pub enum Op {
     DropReceipt(u8),
     /// application closes the sink
     Close(u8),
-    /// a send that must fail locally (over-long topic / filter): create + poll once
-    SendBad { kind: SendKind },
+    /// a send that must fail locally: create + poll once.  how: 0 over-long topic / filter,
+    /// 1 over-long user property (v5), 2 larger than the peer's Maximum Packet Size (v5, when configured)
+    SendBad { kind: SendKind, how: u8 },
+    /// start a streamed publish (QoS 0 / 1) with `declared` payload bytes.
+    /// bad: 0 no, 1 over-long topic, 2 packet id of an outstanding request (QoS 1)
+    StreamStart { qos: u8, declared: u8, bad: u8 },
+    /// `StreamingPayload::send` on the k-th live stream.  len class: 0 empty, 1 one byte,
+    /// 2 half of what is owed, 3 all that is owed, 4 one byte too many, 5 three bytes
+    Chunk { stream: u8, len: u8 },
+    /// drop the k-th live `StreamingPayload`
+    StreamDrop(u8),
+    /// inbound traffic that makes the endpoint write a response: 0 PUBLISH QoS 1, 1 PINGREQ,
+    /// 2 SUBSCRIBE (server roles; PUBLISH QoS 1 otherwise), 3 PUBLISH QoS 0
+    Inbound(u8),
+    /// handlers invoked from now on wait (true) / every waiting handler continues (false)
+    Hold(bool),
+    /// the peer closes / injects a read error / a write error
+    PeerFault(u8),
+}
+
+/// a streamed publish started by the application
+#[derive(Clone, Debug)]
+pub struct StreamRec {
+    /// topic tag is `1000 + index`
+    pub qos: u8,
+    pub declared: u32,
+    /// handle index in the bed; None: the start failed locally
+    pub handle: Option<usize>,
+    pub start_err: Option<SendErr>,
+    /// the application still holds the StreamingPayload
+    pub live: bool,
+    /// bytes of chunks whose send returned Ok, in order
+    pub accepted: Vec<u8>,
+    /// slot of the awaiting future (QoS 1)
+    pub fut_slot: Option<usize>,
+    /// slot of the chunk future in progress
+    pub chunk_slot: Option<usize>,
+    /// a chunk was refused as over-long, or the stream was dropped incomplete
+    pub aborted: bool,
+    pub step: usize,
 }
 
 /// a request the endpoint wrote, as seen by the peer
@@ -102,6 +140,16 @@ pub struct Slot {
     /// Some(idx of the receipt slot) for release futures
     pub release_of: Option<usize>,
     pub own_id: Option<u16>,
+    /// chunk future: (stream index, bytes)
+    pub chunk_of: Option<(usize, Vec<u8>)>,
+    /// awaiting future of a streamed QoS 1 publish
+    pub stream_of: Option<usize>,
+}
+
+impl Slot {
+    pub fn new(kind: SendKind, fut: BoxFut<SendRes>, step: usize) -> Slot {
+        Slot { kind, fut: Some(fut), result: None, created: step, first_polled: None, resolved: None, dropped: false, again: false, release_of: None, own_id: None, chunk_of: None, stream_of: None }
+    }
 }
 
 pub struct World {
@@ -124,6 +172,14 @@ pub struct World {
     pub max_outstanding_pubs: usize,
     /// vary the contents of v5 acknowledgements (reason codes, reason strings, user properties, SUBACK lists)
     pub flavor: bool,
+    pub streams: Vec<StreamRec>,
+    /// peer's Maximum Packet Size announced to the endpoint (v5)
+    pub peer_max: Option<u32>,
+    pub inbound_id: u16,
+    /// a response was due while a streamed payload was owed
+    pub response_during_stream: bool,
+    /// bytes of every chunk whose send returned Ok, in order of acceptance (whichever handle was used)
+    pub accepted_all: Vec<u8>,
 }
 
 pub fn tag_topic(i: usize) -> String {
@@ -167,7 +223,14 @@ pub fn limit_cfg(role: Role, limit: u16, how: LimitHow) -> Cfg {
 
 impl World {
     pub async fn start(role: Role, limit: u16, how: LimitHow, write_hw: usize) -> Result<World, Failure> {
+        Self::start_with(role, limit, how, write_hw, None).await
+    }
+
+    pub async fn start_with(role: Role, limit: u16, how: LimitHow, write_hw: usize, peer_max: Option<u32>) -> Result<World, Failure> {
         let mut cfg = limit_cfg(role, limit, how);
+        let peer_max = if role.is_v5() { peer_max } else { None };
+        cfg.v5.connect.max_packet_size = peer_max;
+        cfg.v5.connack.max_packet_size = peer_max;
         cfg.v3.write_hw = write_hw;
         cfg.v5.write_hw = write_hw;
         let eut = Eut::start(role, &cfg).await;
@@ -192,6 +255,11 @@ impl World {
             parked_then_ran: false,
             max_outstanding_pubs: 0,
             flavor: false,
+            streams: Vec::new(),
+            peer_max,
+            inbound_id: 100,
+            response_during_stream: false,
+            accepted_all: Vec::new(),
         })
     }
 
@@ -267,6 +335,19 @@ impl World {
             if let SendRes::Receipt(idx, _) = &r {
                 self.receipts.push((i, *idx, true));
             }
+            if let Some((si, bytes)) = slot.chunk_of.take() {
+                let st = &mut self.streams[si];
+                st.chunk_slot = None;
+                match &r {
+                    SendRes::Sent => {
+                        st.accepted.extend_from_slice(&bytes);
+                        self.accepted_all.extend_from_slice(&bytes);
+                    }
+                    SendRes::Err(SendErr::Encode(e)) if e.contains("OverPublishSize") => st.aborted = true,
+                    _ => {}
+                }
+                slot.chunk_of = Some((si, bytes));
+            }
             slot.result = Some(r);
         }
     }
@@ -276,7 +357,7 @@ impl World {
         let own = (own_id != 0).then_some(u16::from(own_id));
         let spec = SendSpec { kind: kind.clone(), topic: tag_topic(i), payload: vec![i as u8; 1 + i % 3], pid: own, user_prop: None };
         let fut = self.eut.send(spec);
-        self.slots.push(Slot { kind, fut: Some(fut), result: None, created: self.step, first_polled: None, resolved: None, dropped: false, again, release_of: None, own_id: own });
+        self.slots.push(Slot { again, own_id: own, ..Slot::new(kind, fut, self.step) });
         i
     }
 
@@ -489,7 +570,7 @@ impl World {
                     self.receipts[ri].2 = false;
                     let fut = self.eut.release(ridx);
                     let i = self.slots.len();
-                    self.slots.push(Slot { kind: SendKind::Qos2, fut: Some(fut), result: None, created: self.step, first_polled: None, resolved: None, dropped: false, again: false, release_of: Some(send_slot), own_id: None });
+                    self.slots.push(Slot { release_of: Some(send_slot), ..Slot::new(SendKind::Qos2, fut, self.step) });
                     self.poll_slot(i);
                 }
             }
@@ -502,14 +583,138 @@ impl World {
                     self.eut.drop_receipt(idx);
                 }
             }
-            Op::SendBad { kind } => {
+            Op::SendBad { kind, how } => {
                 if self.slots.len() < 60 {
                     let i = self.slots.len();
-                    let spec = SendSpec { kind, topic: "x".repeat(70_000), payload: vec![1], pid: None, user_prop: None };
+                    let v5 = self.eut.role().is_v5();
+                    let mut spec = SendSpec { kind, topic: tag_topic(i), payload: vec![1], pid: None, user_prop: None };
+                    match (how % 3, v5, self.peer_max) {
+                        (1, true, _) if kind != SendKind::Qos2 => spec.user_prop = Some(("k".into(), "v".repeat(66_000))),
+                        (2, true, Some(max)) if matches!(kind, SendKind::Qos0 | SendKind::Qos1 | SendKind::Qos2) => spec.payload = vec![2; max as usize],
+                        _ => spec.topic = "x".repeat(70_000),
+                    }
                     let fut = self.eut.send(spec);
-                    self.slots.push(Slot { kind, fut: Some(fut), result: None, created: self.step, first_polled: None, resolved: None, dropped: false, again: false, release_of: None, own_id: Some(0) });
+                    self.slots.push(Slot { own_id: Some(0), ..Slot::new(kind, fut, self.step) });
                     self.poll_slot(i);
                 }
+            }
+            Op::StreamStart { qos, declared, bad } => {
+                if self.slots.len() < 60 && self.streams.len() < 20 {
+                    let si = self.streams.len();
+                    let qos = qos % 2;
+                    let topic = if bad == 1 { "x".repeat(70_000) } else { tag_topic(1000 + si) };
+                    let pid = if bad == 2 && qos == 1 { self.unanswered.iter().map(|qi| &self.requests[*qi]).find(|r| r.t != 6).map(|r| r.id) } else { None };
+                    let (fut, res) = self.eut.stream_start(qos, topic, u32::from(declared), pid);
+                    let mut rec = StreamRec {
+                        qos,
+                        declared: u32::from(declared),
+                        handle: res.as_ref().ok().copied(),
+                        start_err: res.as_ref().err().cloned(),
+                        live: res.is_ok(),
+                        accepted: Vec::new(),
+                        fut_slot: None,
+                        chunk_slot: None,
+                        aborted: false,
+                        step: self.step,
+                    };
+                    if let Some(fut) = fut {
+                        let i = self.slots.len();
+                        rec.fut_slot = Some(i);
+                        self.slots.push(Slot { stream_of: Some(si), own_id: pid, ..Slot::new(SendKind::Qos1, fut, self.step) });
+                        self.streams.push(rec);
+                        self.poll_slot(i);
+                    } else {
+                        self.streams.push(rec);
+                    }
+                }
+            }
+            Op::Chunk { stream, len } => {
+                let live: Vec<usize> = self.streams.iter().enumerate().filter(|(_, s)| s.live).map(|(i, _)| i).collect();
+                if !live.is_empty() && self.slots.len() < 60 {
+                    let si = live[usize::from(stream) % live.len()];
+                    if let Some(cs) = self.streams[si].chunk_slot {
+                        // one chunk at a time: drive the one in progress
+                        self.poll_slot(cs);
+                    } else {
+                        let st = &self.streams[si];
+                        let owed = st.declared as usize - st.accepted.len().min(st.declared as usize);
+                        let n = match len % 6 {
+                            0 => 0,
+                            1 => 1,
+                            2 => (owed / 2).max(1),
+                            3 => owed,
+                            4 => owed + 1,
+                            _ => 3,
+                        };
+                        let off = st.accepted.len();
+                        let bytes: Vec<u8> = (0..n).map(|k| ((si * 37 + off + k) % 251) as u8).collect();
+                        let h = st.handle.unwrap();
+                        let fut = self.eut.stream_chunk(h, bytes.clone());
+                        let fut: BoxFut<SendRes> = Box::pin(async move {
+                            match fut.await {
+                                Ok(()) => SendRes::Sent,
+                                Err(e) => SendRes::Err(e),
+                            }
+                        });
+                        let i = self.slots.len();
+                        self.slots.push(Slot { chunk_of: Some((si, bytes)), ..Slot::new(SendKind::Qos0, fut, self.step) });
+                        self.streams[si].chunk_slot = Some(i);
+                        self.poll_slot(i);
+                    }
+                }
+            }
+            Op::StreamDrop(k) => {
+                let live: Vec<usize> = self.streams.iter().enumerate().filter(|(_, s)| s.live).map(|(i, _)| i).collect();
+                if !live.is_empty() {
+                    let si = live[usize::from(k) % live.len()];
+                    // a chunk future in progress holds the stream: the application drops it first
+                    if let Some(cs) = self.streams[si].chunk_slot.take() {
+                        self.slots[cs].fut = None;
+                        self.slots[cs].dropped = true;
+                    }
+                    let st = &mut self.streams[si];
+                    st.live = false;
+                    if (st.accepted.len() as u32) < st.declared {
+                        st.aborted = true;
+                    }
+                    let h = st.handle.unwrap();
+                    self.eut.stream_drop(h);
+                    self.eut.settle().await;
+                }
+            }
+            Op::Inbound(what) => {
+                self.eut.settle().await;
+                if self.streams.iter().any(|s| s.handle.is_some() && (s.accepted.len() as u32) < s.declared && !s.aborted) {
+                    self.response_during_stream = true;
+                }
+                self.inbound_id += 1;
+                let id = self.inbound_id;
+                let server = self.eut.role().is_server();
+                let p = match (what % 4, server) {
+                    (1, true) => P5::PingReq,
+                    (2, true) => P5::Subscribe(s5::Sub5 { pid: id, filters: vec![("in/#".into(), s5::SubOpts::default())], ..Default::default() }),
+                    (3, _) => P5::Publish(Box::new(s5::Publish5 { topic: "in/0".into(), qos: 0, payload_len: 2, ..Default::default() })),
+                    _ => P5::Publish(Box::new(s5::Publish5 { topic: "in/1".into(), qos: 1, pid: Some(id), payload_len: 2, ..Default::default() })),
+                };
+                let payload: &[u8] = if matches!(p, P5::Publish(_)) { &[7, 7] } else { &[] };
+                self.eut.peer_send(&p, payload);
+                self.eut.settle().await;
+            }
+            Op::Hold(hold) => {
+                if hold {
+                    self.eut.app().default_open.set(false);
+                } else {
+                    self.eut.app().open_all();
+                    self.eut.settle().await;
+                }
+            }
+            Op::PeerFault(k) => {
+                match k % 3 {
+                    0 => self.eut.peer().close(),
+                    1 => self.eut.peer().read_error(),
+                    _ => self.eut.peer().write_error(),
+                }
+                self.eut.settle().await;
             }
             Op::Close(how) => {
                 self.closed_by_app = true;
